@@ -127,6 +127,14 @@ def cases(chk):
         if _relevant(d):
             for k in ("lead", "trail"):
                 yield "recv", {"d": dict(d, **{k: 1}), "flags": "1111", "enc": r.choice([0, 1])}
+    # ... and the unknown element carrying data of a size around every integer literal of the stanza class's source (the library formats a stanza
+    # for its log lines BEFORE it answers it; data beyond a limit is shortened there): 501 and 4096 bytes, literals +-1
+    from lib.probes import harvest_ints
+    bulk = sorted(set([501, 4096] + [v + dd for v in harvest_ints(["yowsup/structs/protocoltreenode.py"]) for dd in (-1, 0, 1) if 16 < v + dd <= 70000]))[:12]
+    for d in c06.SUPPORTED:
+        if _relevant(d) and d["tag"] in ("notification", "call", "message"):
+            for nb in bulk:
+                yield "recv", {"d": dict(d, trail=nb), "flags": "1111", "enc": r.choice([0, 1])}
     n = 0
     while n < chk.scale(800, 20000):
         d = c06.rand_desc(r)
